@@ -20,8 +20,14 @@ def v1_file(sep, blanks, lead, gap, charset, encoding, uid, body, compression=Tr
 
 
 def v2_file(quote, layout, body, version="203"):
-    x = f"<?xml version={quote}1.0{quote} encoding={quote}UTF-8{quote} standalone={quote}no{quote}?>"
-    o = f'<?OFX OFXHEADER={quote}200{quote} VERSION={quote}{version}{quote} SECURITY={quote}NONE{quote} OLDFILEUID={quote}NONE{quote} NEWFILEUID={quote}abc-1{quote}?>'
+    # quote: one quote character for every attribute, or a string of quote characters used in turn (mixed styles)
+    qs = iter(quote * 8)
+
+    def at(name, val):
+        q = next(qs)
+        return f"{name}={q}{val}{q}"
+    x = "<?xml " + " ".join([at("version", "1.0"), at("encoding", "UTF-8"), at("standalone", "no")]) + "?>"
+    o = "<?OFX " + " ".join([at("OFXHEADER", "200"), at("VERSION", version), at("SECURITY", "NONE"), at("OLDFILEUID", "NONE"), at("NEWFILEUID", "abc-1")]) + "?>"
     sep = {"one-line": "", "lf": "\n", "crlf": "\r\n"}[layout]
     return (x + sep + o + sep + body).encode("utf_8"), {"VERSION": version, "NEWFILEUID": "abc-1"}
 
@@ -108,7 +114,7 @@ def cases_v1(tier):
 
 
 def cases_v2(tier):
-    return [[q, lay, b] for q in ('"', "'") for lay in ("one-line", "lf", "crlf") for b in bodies(tier)]
+    return [[q, lay, b] for q in ('"', "'", "\"'", "'\"\"") for lay in ("one-line", "lf", "crlf") for b in bodies(tier)]
 
 
 class A_(Arg):
@@ -123,6 +129,6 @@ CONTRACTS = [
              props=["C05"]),
     Contract("ofxtools.header:parse_header", args=[A_("quote"), A_("layout"), A_("body")],
              call=check_v2, ensures=[("fields-and-exact-body", "result == []")], cases=cases_v2, native_only=True, shards=4,
-             notes="v2: quotes {double, single} x {one line, LF, CRLF between declarations and body} x the same bodies",
+             notes="v2: quotes {double, single, alternating per attribute (two patterns)} x {one line, LF, CRLF between declarations and body} x the same bodies",
              props=["C05"]),
 ]
